@@ -143,6 +143,13 @@ class Number(Element):
         # definition or update of the vector would fail to serialise
         if isinstance(value, float) and not math.isfinite(value):
             raise ValueError("Number value has to be finite")
+        if isinstance(value, int):
+            # an integer beyond the range of a float (hundreds of digits sent
+            # by a client) cannot be rendered with any number format either
+            try:
+                float(value)
+            except OverflowError:
+                raise ValueError("Number value is out of range")
         return value
 
     def set_value_from_message(self, msg):
